@@ -154,6 +154,9 @@ func SimSeed(s uint64) {
 func SimTag() unsafe.Pointer      { return getg().labels }
 func SimSetTag(p unsafe.Pointer) { getg().labels = p }
 
+// SimInBubble reports whether the calling goroutine belongs to a synctest bubble.
+func SimInBubble() bool { return getg().bubble != nil }
+
 // SimOverlay reports that the verif runtime overlay is compiled in.
 const SimOverlay = true
 `
